@@ -1876,6 +1876,9 @@ func getIndexMap2(n *node) {
 				v := value0(f).MapIndex(mi)
 				if v.IsValid() {
 					dest(f).Set(v)
+				} else {
+					d := dest(f)
+					d.Set(reflect.Zero(d.Type()))
 				}
 				if doStatus {
 					value2(f).SetBool(v.IsValid())
@@ -1897,6 +1900,9 @@ func getIndexMap2(n *node) {
 				v := value0(f).MapIndex(value1(f))
 				if v.IsValid() {
 					dest(f).Set(v)
+				} else {
+					d := dest(f)
+					d.Set(reflect.Zero(d.Type()))
 				}
 				if doStatus {
 					value2(f).SetBool(v.IsValid())
